@@ -213,7 +213,12 @@ func init() {
 	register("C20", core.LevelMC, runC20)
 	variantDefs["C20"] = func(cfg sessmc.Config) searchSpec {
 		// the peer's Logon announces 20 s; an initiator (configured 30 s) and an overriding acceptor must ignore it
-		logon := sessmc.EvIn("A", 0, false, fixscan.Field{108, "20"})
+		// (configured 7 s: the peer announces 3 s — intervals whose 1.2-fold is not a whole number of seconds)
+		announced := "20"
+		if cfg.HeartBtInt == 7 {
+			announced = "3"
+		}
+		logon := sessmc.EvIn("A", 0, false, fixscan.Field{108, announced})
 		return searchSpec{cfg: cfg, alphabet: c20Alphabet(), prefix: []*sessmc.Event{sessmc.EvConnect(), logon},
 			mons: func() []sessmc.Monitor { return []sessmc.Monitor{&c20Mon{}, &c04Mon{}} }, variant: "C20"}
 	}
@@ -248,7 +253,7 @@ func runC20(c *core.Ctx) {
 	} else {
 		c.SetDeadline(5 * 60e9)
 	}
-	c.SetRule("BFS over timed event sequences (tick = HeartBtInt/5 of virtual time; a timer event is enabled only when its virtual deadline is due; time cannot pass a due timer) on a real logged-on session with virtual EventTimers; timed reference model checked on every transition")
+	c.SetRule("BFS over timed event sequences (tick = HeartBtInt/5 of virtual time; a timer event is enabled only when its virtual deadline is due; time cannot pass a due timer) on a real logged-on session with virtual EventTimers, heartbeat intervals 30 s configured / 20 s announced and 7 s configured / 3 s announced; timed reference model checked on every transition")
 	c.Assume("virtual time: EventTimer.Reset is intercepted (hook H3) and the explorer fires timers", "relative state keys incl. timer deadlines relative to the virtual clock",
 		"unparsable inbound bytes count as 'something received'", "recovery clause is judged by the C04 reference model running alongside")
 	for _, ini := range []bool{false, true} {
@@ -260,14 +265,19 @@ func runC20(c *core.Ctx) {
 				if c.Quick() && bs == "FIX.4.4" && ov {
 					continue
 				}
-				cfg := sessmc.Config{Initiator: ini, BeginString: bs, Timed: true, HBOverride: ov, HeartBtInt: 30}
-				for _, v := range []string{"C20", "C20/pending", "C20/pending-recovery"} {
-					sp := variantDefs[v](cfg)
-					sp.depth, sp.relative, sp.conform = depth, true, 200
-					if v != "C20" {
-						sp.depth = depth - 1
+				for _, hbi := range []int{30, 7} {
+					if hbi == 7 && (bs != "FIX.4.2" || ov) {
+						continue
 					}
-					runSearch(c, sp)
+					cfg := sessmc.Config{Initiator: ini, BeginString: bs, Timed: true, HBOverride: ov, HeartBtInt: hbi}
+					for _, v := range []string{"C20", "C20/pending", "C20/pending-recovery"} {
+						sp := variantDefs[v](cfg)
+						sp.depth, sp.relative, sp.conform = depth, true, 200
+						if v != "C20" {
+							sp.depth = depth - 1
+						}
+						runSearch(c, sp)
+					}
 				}
 			}
 		}
